@@ -1223,10 +1223,12 @@ class Vector():
 			Sorted vector with same dtype
 		"""
 		# Build key for each element
+		# The None flag is flipped under reverse so that None stays last (or first)
+		# whatever the direction, as in Table.sort_by
 		if na_last:
-			key_fn = lambda x: (x is None, x if x is not None else 0)
+			key_fn = lambda x: ((x is None) != reverse, x if x is not None else 0)
 		else:
-			key_fn = lambda x: (0 if x is None else 1, x if x is not None else 0)
+			key_fn = lambda x: ((x is not None) != reverse, x if x is not None else 0)
 		
 		new_values = tuple(sorted(self._underlying, key=key_fn, reverse=reverse))
 
